@@ -13,6 +13,7 @@ import (
 	"net/http/httptest"
 	"net/url"
 	"strings"
+	"sync/atomic"
 
 	"google.golang.org/grpc/codes"
 	"google.golang.org/grpc/status"
@@ -110,6 +111,10 @@ func runC14(o *hx.Out, r *hx.Rand, thorough bool) {
 	for _, c := range cs {
 		for _, ended := range []bool{false, true} {
 			ret = codeErr{c}
+			if c%3 == 1 && c != 0 {
+				// the same code carried by an error that also wraps a context error (its own status is what counts)
+				ret = wrapsCtx{status.New(codes.Code(c), "m"), []error{context.Canceled, context.DeadlineExceeded}[c%2]}
+			}
 			req := httptest.NewRequest("POST", "/verif.Svc/U", bytes.NewReader(nil))
 			req.Header.Set("Content-Type", httpgrpc.UnaryRpcContentType_V1)
 			if ended {
@@ -151,6 +156,15 @@ func runC14(o *hx.Out, r *hx.Rand, thorough bool) {
 		o.Case("client_fallback", fmt.Sprintf("Client %d None %d", s, got), map[string]interface{}{"http": s, "code": got})
 		if (got == 0) != (s >= 200 && s < 300) {
 			o.Violate("client derives OK for a non-2xx status or non-OK for 2xx", map[string]interface{}{"http": s}, got, nil)
+		}
+	}
+	// a 3xx reply that names a Location is a reply like any other: mapped by its status, never followed
+	for _, st := range []int{301, 302, 303, 307, 308} {
+		var n int32
+		got := codeOfErr(call(redirectRT{status: st, n: &n}))
+		o.Case("client_fallback_redirect", fmt.Sprintf("Client %d None %d", st, got), map[string]interface{}{"http": st, "location": "http://elsewhere.invalid/landing", "code": got, "requests_made": n})
+		if n != 1 {
+			o.Violate("the client followed a redirect", map[string]interface{}{"http": st, "requests_made": n}, n, 1)
 		}
 	}
 	hdrs := []string{"0", "5", "16", "17", "-1", "+7", "007", "2147483647", "-2147483648", "2147483648", "4294967295", "abc", " 5", "5 ", "", "-", "+", "+-3", "1e3", "0x10", "99999999999999999999"}
@@ -251,4 +265,27 @@ func runC14(o *hx.Out, r *hx.Rand, thorough bool) {
 		ts.Close()
 	}
 	o.Stats["codes"] = len(cs)
+}
+
+// redirectRT answers the first request with a 3xx that names a Location, and any later one with 200
+type redirectRT struct {
+	status int
+	n      *int32
+}
+
+func (t redirectRT) RoundTrip(r *http.Request) (*http.Response, error) {
+	if r.Body != nil {
+		io.Copy(io.Discard, r.Body)
+		r.Body.Close()
+	}
+	h := http.Header{}
+	st := 200
+	if atomic.AddInt32(t.n, 1) == 1 {
+		st = t.status
+		h.Set("Location", "http://elsewhere.invalid/landing")
+	} else {
+		h.Set("Content-Type", httpgrpc.UnaryRpcContentType_V1)
+	}
+	return &http.Response{StatusCode: st, Status: fmt.Sprintf("%d %s", st, http.StatusText(st)), Proto: "HTTP/1.1", ProtoMajor: 1, ProtoMinor: 1,
+		Header: h, Body: io.NopCloser(bytes.NewReader(nil)), Request: r}, nil
 }
